@@ -163,3 +163,22 @@ Theorem share_deadline_dropped_refuted :
   exists s, shrun false shinit [SCancelA CDeadline; SDialFails; SBSees] = Some s /\
             s_b s = BRet (Some (ECause CDeadline)).
 Proof. eexists. cbn. split; reflexivity. Qed.
+
+(* ---------- 4. HPACK tables ---------- *)
+
+(* whatever requests were cancelled before or during the writing of their headers: the peer's decoder
+   has seen exactly the blocks the encoder produced, in the same order - the tables agree *)
+Theorem hpack_tables_in_step : forall ls, h_enc (hrun false ls) = h_sent (hrun false ls).
+Proof.
+  intros ls. unfold hrun.
+  assert (forall s, h_enc s = h_sent s -> h_enc (fold_left (hstep false) ls s) = h_sent (fold_left (hstep false) ls s)) as G.
+  { induction ls as [|[i cb cd] r IH]; intros s E; cbn; [exact E|].
+    apply IH. destruct cb; cbn; [exact E|]. rewrite E. reflexivity. }
+  apply G. reflexivity.
+Qed.
+
+(* the seeded variant (context tested after the encoding): the tables part for good *)
+Theorem hpack_late_check_refuted :
+  let s := hrun true [HSend 0 false false; HSend 1 false true; HSend 2 false false] in
+  h_enc s = [0; 1; 2] /\ h_sent s = [0; 2].
+Proof. vm_compute. auto. Qed.
